@@ -28,13 +28,15 @@ type Crash struct {
 }
 
 type Plan struct {
-	Seed      uint64
-	Conf      cluster.Conf
-	Faults    cluster.Faults
-	StartMs   []int
-	JoinLagMs []int
-	Crashes   []Crash
-	Censor    bool // own-evidence mode: suspect/dead hearsay about victims is removed from the wire, push/pull off
+	Seed          uint64
+	Conf          cluster.Conf
+	Faults        cluster.Faults
+	StartMs       []int
+	JoinLagMs     []int
+	Crashes       []Crash
+	SecondLife    bool // after detection the victims restart under the same name, are listed again, and crash again
+	SecondDelayMs int
+	Censor        bool // own-evidence mode: suspect/dead hearsay about victims is removed from the wire, push/pull off
 }
 
 func genPlan(t *rapid.T) Plan {
@@ -71,6 +73,8 @@ func genPlan(t *rapid.T) Plan {
 		p.Crashes = append(p.Crashes, Crash{Node: v, AtMs: at, HostDown: rapid.Bool().Draw(t, "hostdown")})
 	}
 	sort.Slice(p.Crashes, func(i, j int) bool { return p.Crashes[i].AtMs < p.Crashes[j].AtMs })
+	p.SecondLife = rapid.IntRange(0, 2).Draw(t, "secondlife") == 0
+	p.SecondDelayMs = rapid.SampledFrom([]int{0, 300, 3000}).Draw(t, "seconddelay")
 	return p
 }
 
@@ -228,92 +232,161 @@ func run(pl Plan) (res vfx.Result) {
 		}
 		return s
 	}
-	settled := false
-	for c.Net.Now() < deadline {
-		time.Sleep(time.Second)
-		listed := false
-		for _, s := range survivors() {
-			for _, m := range s.M.Members() {
-				if _, v := victim[m.Name]; v {
-					listed = true
-				}
-			}
-		}
-		if listed {
-			continue
-		}
-		// nobody lists a victim: can it be re-learnt from somebody's table?
-		relearn := false
-		for _, s := range survivors() {
-			d, err := c.Dump(s)
-			if err != nil {
-				relearn = true
-				break
-			}
-			for name, r := range d {
-				if _, v := victim[name]; v && (r.State == wire.StateAlive || r.State == wire.StateSuspect) {
-					relearn = true
-				}
-			}
-		}
-		if !relearn {
-			settled = true
-			break
-		}
-	}
-	c.Wait()
-	end := c.Net.Now()
-	// ---- oracle ----
-	checked := 0
-	surv := survivors()
-	for _, s := range surv {
-		evs := s.Rec.Events()
-		for vname, tc := range victim {
-			var tj time.Duration = -1
-			for _, e := range evs {
-				if e.Name != vname {
-					continue
-				}
-				at := e.T + s.StartedAt
-				switch e.Kind {
-				case "join":
-					tj = at
-				case "leave":
-					if tj >= 0 {
-						from := tj
-						if tc > from {
-							from = tc
-						}
-						if at > from+B {
-							return fail("%s removed crashed member %s at %v: listed since %v, crash at %v, bound %v exceeded by %v (n=%d, conf %+v)\nhistory %v",
-								s.Name(), vname, at, tj, tc, B, at-from-B, n, cf, hist)
-						}
-						checked++
-						tj = -1
+	var surv []*cluster.Node
+	var end time.Duration
+	evaluate := func(since, deadline time.Duration) (int, error) {
+		settled := false
+		for c.Net.Now() < deadline {
+			time.Sleep(time.Second)
+			listed := false
+			for _, s := range survivors() {
+				for _, m := range s.M.Members() {
+					if _, v := victim[m.Name]; v {
+						listed = true
 					}
 				}
 			}
-			if tj >= 0 {
-				from := tj
-				if tc > from {
-					from = tc
+			if listed {
+				continue
+			}
+			// nobody lists a victim: can it be re-learnt from somebody's table?
+			relearn := false
+			for _, s := range survivors() {
+				d, err := c.Dump(s)
+				if err != nil {
+					relearn = true
+					break
 				}
-				if end > from+B {
-					return fail("%s still lists crashed member %s at the end (%v): listed since %v, crash at %v, bound %v (n=%d, settled=%v, conf %+v)\nhistory %v",
-						s.Name(), vname, end, tj, tc, B, n, settled, cf, hist)
+				for name, r := range d {
+					if _, v := victim[name]; v && (r.State == wire.StateAlive || r.State == wire.StateSuspect) {
+						relearn = true
+					}
 				}
-				// not yet due: inconclusive for this pair
-				labels["pair-not-due"] = true
+			}
+			if !relearn {
+				settled = true
+				break
 			}
 		}
-		for _, m := range s.M.Members() {
-			if tc, v := victim[m.Name]; v && end > tc+2*B {
-				return fail("%s lists crashed member %s at the end (%v, crash %v, bound %v)", s.Name(), m.Name, end, tc, B)
+		c.Wait()
+		end := c.Net.Now()
+		// ---- oracle ----
+		checked := 0
+		surv = survivors()
+		for _, s := range surv {
+			evs := s.Rec.Events()
+			for vname, tc := range victim {
+				var tj time.Duration = -1
+				for _, e := range evs {
+					if e.Name != vname {
+						continue
+					}
+					at := e.T + s.StartedAt
+					if at < since {
+						continue
+					}
+					switch e.Kind {
+					case "join":
+						tj = at
+					case "leave":
+						if tj >= 0 {
+							from := tj
+							if tc > from {
+								from = tc
+							}
+							if at > from+B {
+								return 0, fmt.Errorf("%s removed crashed member %s at %v: listed since %v, crash at %v, bound %v exceeded by %v (n=%d, conf %+v)\nhistory %v",
+									s.Name(), vname, at, tj, tc, B, at-from-B, n, cf, hist)
+							}
+							checked++
+							tj = -1
+						}
+					}
+				}
+				if tj >= 0 {
+					from := tj
+					if tc > from {
+						from = tc
+					}
+					if end > from+B {
+						return 0, fmt.Errorf("%s still lists crashed member %s at the end (%v): listed since %v, crash at %v, bound %v (n=%d, settled=%v, conf %+v)\nhistory %v",
+							s.Name(), vname, end, tj, tc, B, n, settled, cf, hist)
+					}
+					// not yet due: inconclusive for this pair
+					labels["pair-not-due"] = true
+				}
+			}
+			for _, m := range s.M.Members() {
+				if tc, v := victim[m.Name]; v && end > tc+2*B {
+					return 0, fmt.Errorf("%s lists crashed member %s at the end (%v, crash %v, bound %v)", s.Name(), m.Name, end, tc, B)
+				}
+			}
+			if err := cluster.CheckEventLog(s.M, s.Rec, s.Name()); err != nil {
+				return 0, fmt.Errorf("event log: %v", err)
 			}
 		}
-		if err := cluster.CheckEventLog(s.M, s.Rec, s.Name()); err != nil {
-			return fail("event log: %v", err)
+		return checked, nil
+	}
+	checked, err := evaluate(0, deadline)
+	if err != nil {
+		res.Err = err
+		return done()
+	}
+	// ---- second life: the victims come back under the same name and address, are listed again, and crash again ----
+	if pl.SecondLife && len(surv) >= 1 {
+		restartAt := c.Net.Now()
+		var back []*cluster.Node
+		for _, cr := range pl.Crashes {
+			nd := nodes[cr.Node]
+			if nd == nil || nd.Running {
+				continue
+			}
+			nd.EP.SetDown(false)
+			if err := c.Restart(nd); err != nil {
+				return fail("restart: %v", err)
+			}
+			for try := 0; try < 10; try++ {
+				if _, err := nd.M.Join([]string{surv[try%len(surv)].Addr()}); err == nil {
+					break
+				}
+				time.Sleep(500 * time.Millisecond)
+			}
+			back = append(back, nd)
+			logf("%v %s restarted and rejoined", c.Net.Now(), nd.Name())
 		}
+		// wait until every survivor lists them again
+		for w := 0; w < 40; w++ {
+			all := true
+			for _, s := range surv {
+				names := s.MemberNames()
+				for _, nd := range back {
+					found := false
+					for _, x := range names {
+						if x == nd.Name() {
+							found = true
+						}
+					}
+					all = all && found
+				}
+			}
+			if all {
+				break
+			}
+			time.Sleep(time.Second)
+		}
+		time.Sleep(time.Duration(pl.SecondDelayMs) * time.Millisecond)
+		for _, nd := range back {
+			c.Crash(nd, false)
+			victim[nd.Name()] = c.Net.Now()
+			logf("%v %s crashed again", c.Net.Now(), nd.Name())
+		}
+		labels["second-life"] = true
+		n2, err := evaluate(restartAt, c.Net.Now()+2*B+10*time.Second)
+		if err != nil {
+			res.Err = fmt.Errorf("second life (restart at %v): %v", restartAt, err)
+			return done()
+		}
+		checked += n2
 	}
 	if _, _, err := c.DecodeTap(0, cd); err != nil {
 		return fail("%v", err)
